@@ -21,6 +21,10 @@ def cases(ctx):
         h = G.holed_shape(rng, R=rng.choice([10, 16]), den=rng.choice([1, 2]), nholes=rng.choice([1, 2, 2, 3]))
         if h[0] == "C":
             yield {"k": "connected", "curves": h[1], "num": "frac" if i % 3 else "int"}
+    for i in range(ctx.n(6, 120)):
+        u = G.unbounded_connected(rng, R=rng.choice([8, 14]), den=rng.choice([1, 2]))
+        if u[0] == "C":
+            yield {"k": "connected", "curves": u[1], "num": "frac", "unbounded": True}
     for i in range(ctx.n(14, 250)):
         d = G.disjoint_shape(rng, R=rng.choice([8, 14]), den=rng.choice([1, 2]), ncomp=rng.choice([2, 3, 3, 4]))
         if d[0] == "D":
@@ -73,10 +77,15 @@ def check(ctx, case):
     if k == "connected":
         curves = case["curves"]
         members = [("S", j) for j in curves]          # outer (ccw) and complements of holes (cw)
-        pts = O.slab_samples(curves)
+        pts = O.slab_samples(curves) + [(F(1000), F(777)), (F(-10 ** 6), F(1, 3))]
         build = lambda order: I.ConnectedShape([I.mk_shape(members[i], num) for i in order])
         outer = curves[0]
         def via_ops():
+            if case.get("unbounded"):        # the plane minus the polygons
+                R = I.WholeShape()
+                for hj in curves:
+                    R = R - I.mk_shape(("S", U.reverse_jordan(hj)), num)
+                return R
             R = I.mk_shape(("S", outer), num)
             for hj in curves[1:]:
                 R = R - I.mk_shape(("S", U.reverse_jordan(hj)), num)
